@@ -80,8 +80,11 @@ def check(rep, an, tier):
         est_runs.append(("range_of_solutions", dict(B=Bv(), relative=flag("relative", rel), error=strv("error", "ignore"), n=intv("n", "NS"),
                                                     eps=num("eps", ONE, sign="POS")), rel))
         est_runs.append(("in_hull", dict(B=Bv(), relative=flag("relative", rel)), rel))
+        est_runs.append(("in_hull", dict(B=Bv(), relative=flag("relative", rel), normalized=flag("normalized", True)), rel))
+    from .C12 import hooks as c12hooks
     for meth, kw, rel in est_runs:
-        res = an.run(f"{CC.EST}.{meth}", kws=kw, self_fields=estimator_fields(K="vec", baseline="vec"), spec=CC.hooks(), config=f"relative={rel}")
+        res = an.run(f"{CC.EST}.{meth}", kws=kw, self_fields=estimator_fields(K="vec", baseline="vec"),
+                     spec=(c12hooks() if "normalized" in kw else CC.hooks()), config=f"relative={rel}" + (",normalized" if "normalized" in kw else ""))
         entry = f"ReceptorEstimator.{meth}"
         quantisation(rep, res, entry)
         tolerances(rep, res, entry)
@@ -125,7 +128,9 @@ def check(rep, an, tier):
                           construct=f"{lab} of range_of_solutions", entry=entry, config=res.config)
     fit = {"baseline": (["vec", None], ["vec", None]), "W": (["mat", None], ["mat", "vec", None]), "lb": (["nonneg", "any"], ["nonneg", "any"]),
            "ub": (["finite", "inf"], ["finite", "inf"]), "bs": ([1, "sym"], [1, "sym"])}
-    for cfg in lsq_configs(tier, fit):
+    fit_cfgs = list(lsq_configs(tier, fit))
+    fit_cfgs.append(dict({n: fit[n][0][0] for n in fit}, W="inverse"))       # weights derived from the targets: 1 / B
+    for cfg in fit_cfgs:
         kw = lsq_inputs(K=None, baseline=cfg["baseline"], W=cfg["W"], lb=cfg["lb"], ub=cfg["ub"], bs=cfg["bs"])
         kw.update(base_kws(model=const("gaussian")))
         res = an.run(f"{LSQ}:lsq_linear", kws=kw, config=cfgname(cfg))
